@@ -1,0 +1,97 @@
+//go:build verif
+// +build verif
+
+package atomic
+
+// Contracts for govc, the contract-based deductive verifier kept in /verif (see /verif/DESIGN.md).
+// Compiled only under the "verif" build tag.
+//
+// "No update is lost": every method performs exactly one sync/atomic operation on the value (obligation
+// kind "atomic": at most one operation per call, no plain access) and that operation has the sequential
+// effect stated here; atomicity of the single operation is the guarantee of sync/atomic (assumed, A6).
+
+//@ guarded atomic.Flag .value atomic
+//@ guarded atomic.Counter .value atomic
+//@ guarded atomic.Int64 .value atomic
+//@ guarded atomic.Uint32 .value atomic
+//@ guarded atomic.Uint64 .value atomic
+
+//@ func (flag *Flag) Set
+//@   requires flag != nil
+//@   ensures[C19] flag.value == 1 && r == (old(flag.value) == 1)
+//@   modifies flag.value
+//@ func (flag *Flag) Unset
+//@   requires flag != nil
+//@   ensures[C19] flag.value == 0
+//@   modifies flag.value
+//@ func (flag *Flag) IsSet
+//@   requires flag != nil
+//@   ensures[C19] r == (flag.value == 1)
+//@ func (flag *Flag) Toggle
+//@   requires flag != nil
+//@   ensures[C19] flag.value == ite(set, 1, 0)
+//@   modifies flag.value
+
+//@ def wrap64(x) := ite(x > 9223372036854775807, x - 18446744073709551616, ite(x < 0 - 9223372036854775808, x + 18446744073709551616, x))
+
+//@ func (counter *Counter) Set
+//@   requires counter != nil
+//@   ensures[C19] counter.value == value
+//@   modifies counter.value
+//@ func (counter *Counter) Increment
+//@   requires counter != nil
+//@   ensures[C19] counter.value == wrap64(old(counter.value) + 1) && r == counter.value
+//@   modifies counter.value
+//@ func (counter *Counter) Add
+//@   requires counter != nil
+//@   ensures[C19] counter.value == wrap64(old(counter.value) + value) && r == counter.value
+//@   modifies counter.value
+//@ func (counter *Counter) Decrement
+//@   requires counter != nil
+//@   ensures[C19] counter.value == wrap64(old(counter.value) - 1) && r == counter.value
+//@   modifies counter.value
+//@ func (counter *Counter) Subtract
+//@   requires counter != nil
+//@   ensures[C19] counter.value == wrap64(old(counter.value) + wrap64(0 - value)) && r == counter.value
+//@   modifies counter.value
+//@ func (counter *Counter) Get
+//@   requires counter != nil
+//@   ensures[C19] r == counter.value
+//@ func (counter *Counter) Reset
+//@   requires counter != nil
+//@   ensures[C19] counter.value == 0 && r == old(counter.value)
+//@   modifies counter.value
+//@ func (counter *Counter) GetUint64
+//@   requires counter != nil
+//@   ensures[C19] r == ite(counter.value < 0, 0, counter.value)
+
+//@ func (variable *Int64) Set
+//@   requires variable != nil
+//@   ensures[C19] variable.value == value
+//@   modifies variable.value
+//@ func (variable *Int64) Get
+//@   requires variable != nil
+//@   ensures[C19] r == variable.value
+//@ func (variable *Uint32) Set
+//@   requires variable != nil
+//@   ensures[C19] variable.value == value
+//@   modifies variable.value
+//@ func (variable *Uint32) Get
+//@   requires variable != nil
+//@   ensures[C19] r == variable.value
+//@ func (variable *Uint64) Set
+//@   requires variable != nil
+//@   ensures[C19] variable.value == value
+//@   modifies variable.value
+//@ func (variable *Uint64) Get
+//@   requires variable != nil
+//@   ensures[C19] r == variable.value
+
+// String keeps a string (or nothing) in a sync/atomic.Value: one Store or one Load per call
+//@ func (variable *String) Set
+//@   requires variable != nil
+//@   ensures[C19] AVt[loc(variable, ".value")] == typeid("string") && unbxS(AVv[loc(variable, ".value")]) == seq(value)
+//@   modifies AVt, AVv
+//@ func (variable *String) Get
+//@   requires variable != nil && (AVt[loc(variable, ".value")] == 0 || AVt[loc(variable, ".value")] == typeid("string"))
+//@   ensures[C19] seq(r) == ite(AVt[loc(variable, ".value")] == 0, "", unbxS(AVv[loc(variable, ".value")]))
